@@ -65,7 +65,25 @@ def all_empty(rec):
 
 
 def manifest_check(rec):
-    """After a commit: manifest on disk matches the user block link and describes the skeleton."""
+    """After a commit: manifest on disk matches the user block link and describes the skeleton.
+
+    Also after a commit request that is *refused* (nothing to commit): the manifest must still match.
+    """
+    err = _manifest_check(rec)
+    if err:
+        return err
+    try:
+        rec.commit_patch()
+        return "a second commit_patch() without an open patch was not refused"
+    except Exception:
+        pass
+    err = _manifest_check(rec)
+    if err:
+        return "after a refused commit_patch(): " + err
+    return None
+
+
+def _manifest_check(rec):
     from metador_core.ih5.skeleton import IH5Skeleton
 
     cfile = Path(rec.ih5_files[-1])
